@@ -156,22 +156,27 @@ fn exec<P: Px>(c: &RCase, stats: &mut Stats, viols: &mut Vec<Viol>) {
                         if fa == fb {
                             true // +0 / -0
                         } else if let Some(m) = &mags {
+                            // In the denormal range the f32 spacing no longer shrinks with the value: an intermediate sample that the two
+                            // back-ends round to neighbouring floats (their f64 sums straddle a rounding boundary) is off by a whole
+                            // 2^-149, the second pass multiplies that by sum|w2| (< 4 inside the envelope) and rounds once more. For
+                            // normal values this absolute term is far below the ulp-of-magnitude terms.
+                            let dn0 = 6.0 * 2f64.powi(-149);
                             if alpha_on && ch != nc - 1 {
                                 // r = N / A: both back-ends resolve A and N to 2 ulp of their summed magnitudes
                                 let aa = bcomps[i * nc + nc - 1].to_f64().abs();
-                                let da = 2.0 * ulp32_up(m[nc - 1].mag[i].max(aa));
+                                let da = 2.0 * ulp32_up(m[nc - 1].mag[i].max(aa)) + dn0;
                                 if aa <= 4.0 * da {
                                     stats.count("float_alpha_unresolved", 1);
                                     true
                                 } else {
-                                    let dn = 2.0 * ulp32_up(m[ch].mag[i].max(fa.abs() * aa).max(fb.abs() * aa));
+                                    let dn = 2.0 * ulp32_up(m[ch].mag[i].max(fa.abs() * aa).max(fb.abs() * aa)) + dn0;
                                     let tol = (dn + fa.abs().max(fb.abs()) * da) / (aa - da) + 2.0 * ulp32_up(fa.abs().max(fb.abs()));
                                     (fa - fb).abs() <= tol
                                 }
                             } else {
                                 // the summed magnitude is never below the result itself (where the model's window is
                                 // degenerate - a Box centre rounded onto the edge - its magnitude is 0)
-                                (fa - fb).abs() <= 2.0 * ulp32_up(m[ch].mag[i].max(fa.abs()).max(fb.abs()))
+                                (fa - fb).abs() <= 2.0 * ulp32_up(m[ch].mag[i].max(fa.abs()).max(fb.abs())) + dn0
                             }
                         } else {
                             false
